@@ -189,16 +189,67 @@ def evaluatable_data(body=None):
     return EvaluatableData(body=body if body is not None else {}, edifact_format=FMT, edifact_format_version=VER)
 
 
-def configure(providers, data_provider=None):
-    """bind the given evaluators/providers/resolvers (list) and an EvaluatableData provider"""
+def configure(providers, data_provider=None, bystanders=True):
+    """
+    bind the given evaluators/providers/resolvers (list) and an EvaluatableData provider; bystanders=False registers
+    exactly the given objects (see _formatless_bystanders)
+    """
     if data_provider is None:
         data_provider = evaluatable_data
 
+    registered = list(providers) + (_formatless_bystanders(providers) if bystanders else [])
+
     def _configure(binder):
-        binder.bind(TokenLogicProvider, SingletonTokenLogicProvider(list(providers)))
+        binder.bind(TokenLogicProvider, SingletonTokenLogicProvider(registered))
         binder.bind_to_provider(EvaluatableDataProvider, data_provider)
 
     inject.clear_and_configure(_configure)
+
+
+def _formatless_bystanders(providers):
+    """
+    One more evaluator / provider / resolver of each kind that names no EDIFACT format and no format version (the base
+    classes allow that; the registry files such an instance under a key of its own).  The evaluatable data of every
+    check carry a format and a version, so these bystanders must never be asked: they know no condition, answer every
+    hint with a foreign text and every package with a foreign expression.
+    """
+    def names_a_format(instance):
+        return not isinstance(instance.edifact_format, NotImplementedError) and not isinstance(
+            instance.edifact_format_version, NotImplementedError
+        )
+
+    if _BYSTANDERS:
+        return [instance for kind, instance in _BYSTANDERS if all(names_a_format(p) for p in providers if isinstance(p, kind))]
+    from ahbicht.content_evaluation.evaluationdatatypes import EvaluationContext
+    from ahbicht.content_evaluation.fc_evaluators import FcEvaluator
+    from ahbicht.content_evaluation.rc_evaluators import RcEvaluator
+    from ahbicht.expressions.hints_provider import HintsProvider
+    from ahbicht.expressions.package_expansion import PackageResolver
+    from ahbicht.models.mapping_results import PackageKeyConditionExpressionMapping
+
+    class BystanderRc(RcEvaluator):
+        def _get_default_context(self):
+            return EvaluationContext(scope=None)
+
+    class BystanderFc(FcEvaluator):
+        pass
+
+    class BystanderHints(HintsProvider):
+        async def get_hint_text(self, condition_key):
+            return f"text of a bystander for {condition_key}"
+
+    class BystanderPackages(PackageResolver):
+        async def get_condition_expression(self, package_key):
+            return PackageKeyConditionExpressionMapping(edifact_format=FMT, package_key=package_key, package_expression="[498]")
+
+    if not _BYSTANDERS:
+        # stateless: built once per process
+        _BYSTANDERS.extend([(RcEvaluator, BystanderRc()), (FcEvaluator, BystanderFc()), (HintsProvider, BystanderHints()),
+                            (PackageResolver, BystanderPackages())])  # fmt: skip
+    return [instance for kind, instance in _BYSTANDERS if all(names_a_format(p) for p in providers if isinstance(p, kind))]
+
+
+_BYSTANDERS = []
 
 
 def configure_single_set(providers, data_provider=None):
